@@ -139,7 +139,7 @@ class Maker:
             if hi is not None:
                 symx.ctx().assume(v.t <= symx.lift(hi))
             return v
-        return float(self.values[name])
+        return float(self.values.get(name, 1.0 if pos else 0.0))
 
     def pos(self, name, hi=None):
         return self.real(name, pos=True, hi=hi)
@@ -153,14 +153,14 @@ class Maker:
             if hi is not None:
                 symx.ctx().assume(v.t <= hi)
             return v
-        return int(self.values[name])
+        return int(self.values.get(name, 0))
 
     def boolean(self, name):
         if self.sym:
             b = z3.Bool(name)
             self.inputs.append((name, 'bool', b))
             return SymBool(b)
-        return bool(self.values[name])
+        return bool(self.values.get(name, False))
 
     def angle(self, name, unit='deg'):
         """any angle, as a Quantity in `unit`; symbolic mode: an atom with (cos, sin) pair"""
@@ -169,12 +169,13 @@ class Maker:
             _, _, cc, ss = symx.ctx().atoms[a.t.get_id()]
             self.inputs.append((name, 'angle', (a.t, cc, ss, unit)))
             return u.Quantity(a, getattr(u, unit), dtype=object)
-        return u.Quantity(float(self.values[name]), getattr(u, unit))
+        return u.Quantity(float(self.values.get(name, 0.0)), getattr(u, unit))
 
     # ---- environment
-    def shim(self, module, attr, value):
-        """rebind a name in an imported repo module for this run (symbolic mode only)"""
-        if not self.sym:
+    def shim(self, module, attr, value, both=False):
+        """rebind a name in an imported repo module for this run (symbolic mode only, unless
+        both=True)"""
+        if not self.sym and not both:
             return
         import importlib
         mod = importlib.import_module(module) if isinstance(module, str) else module
@@ -269,8 +270,11 @@ def run_concrete(h, values):
         except symx.PathAbort:
             return [], 'assumption-not-met'
         except Exception as e:  # noqa
+            if os.environ.get('VERIF_DEBUG'):
+                traceback.print_exc()
             return [('unexpected-exception', None)], f'{type(e).__name__}: {e}'
     finally:
+        m.unshim()
         symx.install_quantity_patch()
     return m.failed, None
 
@@ -336,6 +340,15 @@ def _try_candidates(res, h, inputs, hyps_base, neg, obname, key, timeout_ms, pro
     return False
 
 
+def atom_links(c):
+    """unit-circle constraints of angle atoms act as definitions for slicing"""
+    out = []
+    for (A, rpu, cc, ss) in c.atoms.values():
+        if z3.is_const(cc) and z3.is_const(ss):
+            out.append(cc * cc + ss * ss == 1)
+    return out
+
+
 def run_case(prop, name, h, timeout_ms=30000, max_paths=400, allow_exceptions=()):
     """Symbolically explore harness h; discharge every obligation on every path.
     Returns a picklable CaseResult."""
@@ -373,6 +386,8 @@ def run_case(prop, name, h, timeout_ms=30000, max_paths=400, allow_exceptions=()
         if p.kind == 'exc' and not isinstance(p.value, tuple(allow_exceptions)):
             res['exc_paths'] += 1
             tb = f'{type(p.value).__name__}: {p.value}'
+            if os.environ.get('VERIF_DEBUG'):
+                traceback.print_exception(type(p.value), p.value, p.value.__traceback__)
             r, mdl = solve.check_sat(p.pc + base + [solve.MARGIN == 0], timeout_ms)
             if r == 'sat':
                 _try_candidates(res, h, m.inputs, p.pc + base, z3.BoolVal(True),
@@ -383,7 +398,7 @@ def run_case(prop, name, h, timeout_ms=30000, max_paths=400, allow_exceptions=()
         # safety obligations (sqrt argument >= 0, divisor != 0)
         for (plen, f, what) in p.safety:
             res['safety'] += 1
-            r, mdl = solve.prove(p.pc[:plen] + base + [solve.MARGIN == 0], f, timeout_ms)
+            r, mdl = solve.prove(p.pc[:plen] + base + [solve.MARGIN == 0], f, timeout_ms, link=base + atom_links(p.ctx))
             if r == 'cex':
                 _try_candidates(res, h, m.inputs, p.pc[:plen] + base, z3.Not(f),
                                 f'safety: {what}', None, timeout_ms, prop)
@@ -401,7 +416,7 @@ def run_case(prop, name, h, timeout_ms=30000, max_paths=400, allow_exceptions=()
             res['obligations'] += 1
             hyps = p.pc[:plen] + base
             before = solve.STATS.trivial
-            r, mdl = solve.prove(hyps + [solve.MARGIN == 0], term, timeout_ms)
+            r, mdl = solve.prove(hyps + [solve.MARGIN == 0], term, timeout_ms, link=base + atom_links(p.ctx))
             if solve.STATS.trivial == before:
                 sig = (obname, z3.simplify(term).sexpr()[:2000])
                 if sig not in seen_keys:
@@ -452,3 +467,30 @@ class Known:
 
 
 KNOWN = Known()
+
+
+# --------------------------------------------------------------------------
+# translation-validation case (lowered .pyx executed concretely == compiled extension)
+# --------------------------------------------------------------------------
+def tv_case(prop, kernels, seed, n=40):
+    from . import pyxsym
+    t0 = time.time()
+    res = CaseResult(name='translation-validation/' + '+'.join(kernels), paths=0, obligations=0, nontrivial=0,
+                     violations=[], known=[], inconclusive=[], vacuity=1, samples=[], safety=0, exc_paths=0,
+                     notes=[])
+    try:
+        r = pyxsym.translation_validation(seed=seed, n=n, kernels=kernels)
+    except Exception as e:  # noqa
+        res['inconclusive'].append(f'translation validation could not run: {type(e).__name__}: {e}')
+        r = None
+    if r is not None:
+        res['obligations'] = r['compared']
+        res['nontrivial'] = r['compared']
+        res['extra'] = {'programs': r['programs'], 'compared': r['compared'], 'max_abs_diff': r['max_abs_diff'],
+                        'disagreements': len(r['disagreements'])}
+        if r['disagreements']:
+            res['inconclusive'].append('SOURCE-DIVERGENCE: lowered .pyx and compiled extension disagree: '
+                                       + json.dumps(r['disagreements'][:2])[:500])
+    res['wall_s'] = round(time.time() - t0, 3)
+    res['stats'] = solve.Stats().as_dict()
+    return res
